@@ -116,11 +116,26 @@ _c("C09",
    "C09_lex_break: exact characterisation by induction over the string), repr is total (C09_repr_total), the unsafe character sets "
    "of the raw disciplines, and their lift to whole generated classes (C09_relex). The discipline of every emission site is "
    "regenerated from the AST of json_schema_mapping.py on every run (Gen/EmitSites.v): Repr sites are safe for all strings, every "
-   "other site has a constructed witness (C09_sites, C09_sites_witness). The back-mapping and equivalence clauses are NOT proved; "
-   "they are evaluated on the implementation (compile/exec, structure_to_schema round trip, independent Draft4Validator).",
+   "other site has a constructed witness (C09_sites, C09_sites_witness). Module level (schema_definitions_to_code, "
+   "write_code_from_schema; Schema/ModuleGen.v): executing the written class statements raises no NameError iff every reference "
+   "(in any position: items list, allOf/anyOf/oneOf/not, map value, nested object) goes to the base namespace or strictly backwards "
+   "(C09_module_names_char); definitions may be left out exactly when the kept set is closed under reference (C09_module_prune, "
+   "C09_module_dropped_reference); a recursive definition or a cycle never executes in any order (C09_module_self_reference, "
+   "C09_module_no_cycle); the lexical theorem for whole modules (C09_module_relex). The layout of write_code_from_schema (what is "
+   "written, in which order, over which definitions) is regenerated from its AST on every run (Gen/ModuleLayout.v, fail closed): it "
+   "writes a class for every definition, then the main class (C09_module_layout, C09_module_executes, C09_module_total). The "
+   "required list survives schema -> code -> schema up to order iff every defaulted property is listed (C09_required_roundtrip, "
+   "_only_if). Full statements that are false of the faithful model are kept as Definitions with refutation witnesses "
+   "(declaration-order forward reference, recursion, crash without required). The rest of the back-mapping clause and the "
+   "equivalence clause are NOT proved; they are evaluated on the implementation through all three entry points (compile/exec of the "
+   "returned strings and of the written file, structure_to_schema round trip of schema and reached definitions, independent "
+   "Draft4Validator resolving $ref itself, documents mostly valid with single-property corruptions).",
    "Trusted: Coq kernel + vm_compute; lexer model Schema/PyLiteral.v validated against tokenize/literal_eval; site recogniser in "
-   "harness/genmods/emit_sites.py (fail closed); jsonschema in python3-vt; CPython compile().",
-   "Coq proof (lexer round-trip characterisation by induction over strings, parametric in generated emission sites) + "
+   "harness/genmods/emit_sites.py and layout recogniser harness/genmods/module_layout.py (fail closed); name-resolution model "
+   "(class bodies evaluate field expressions eagerly, `from typedpy import *` names distinct from definition names) compared with "
+   "CPython's NameError on every executed module; jsonschema in python3-vt; CPython compile().",
+   "Coq proof (lexer round-trip characterisation by induction over strings, parametric in generated emission sites; name resolution "
+   "of generated modules by induction over the statement list, parametric in the generated layout) + "
    "model/implementation correspondence in vm_compute")
 _c("C12",
    "Coq theorems (Props/C12.v, closed under the global context) over an executable model of StructMeta.__new__ (Struct/Define.v) "
